@@ -105,6 +105,50 @@ pub fn check_input(ctx: &mut Ctx, gi: &GInfo, rule: usize, input: &str) -> CaseR
                 }
             }
         }
+        // the rendered message makes the same claims: parse its "Expected [..]" / "Unexpected [..]"
+        // lines and hold them against the trace as well
+        for line in err.display.lines() {
+            let l = line.trim();
+            let lists = |key: &str| -> Vec<String> {
+                let lower = l.to_lowercase();
+                match lower.find(key) {
+                    Some(p) => {
+                        let rest = &l[p + key.len()..];
+                        match (rest.find('['), rest.find(']')) {
+                            (Some(a), Some(b)) if a < b => rest[a + 1..b].split(',').map(|x| x.trim().to_string()).filter(|x| !x.is_empty()).collect(),
+                            _ => vec![],
+                        }
+                    }
+                    None => vec![],
+                }
+            };
+            if !(l.starts_with("Expected") || l.starts_with("Unexpected")) {
+                continue;
+            }
+            // "Unexpected [a], expected [b]" | "Expected [b]" | "Unexpected [a]"
+            let unexpected = lists("unexpected ");
+            let mut expected = vec![];
+            if let Some(p) = l.to_lowercase().rfind("expected [") {
+                let before = &l[..p];
+                if !before.to_lowercase().ends_with("un") {
+                    let rest = &l[p..];
+                    if let (Some(a), Some(b)) = (rest.find('['), rest.find(']')) {
+                        expected = rest[a + 1..b].split(',').map(|x| x.trim().to_string()).filter(|x| !x.is_empty()).collect();
+                    }
+                }
+            }
+            for r in &expected {
+                if !trace.iter().any(|a| a.rule == *r && a.pos == p && !a.ok) {
+                    return bad(format!("the message says rule {} is expected at {} but no attempt of it fails there", r, p));
+                }
+            }
+            for r in &unexpected {
+                if !trace.iter().any(|a| a.rule == *r && a.pos == p && a.ok) {
+                    return bad(format!("the message says rule {} is unexpected at {} but no attempt of it succeeds there", r, p));
+                }
+            }
+            ctx.ev.count("message_lines_checked");
+        }
         let mut listed = 0;
         for (_upper, expected, unexpected, special) in &tr.attempts {
             for r in expected {
